@@ -48,6 +48,13 @@ theorem c14_fresh_id (evs : List Ev) (id : Nat) (name : String) (cur ver : Nat)
   · simp only [World.step, World.propose, he] at hok
     cases hok
 
+/-- the key layout and limits the catalogue model uses are the current source's (constants
+regenerated on every run) -/
+theorem c14_constants_match_source :
+    keyPrefix = Regatta.Extracted.metaKeyPrefix ∧ sequenceKey = Regatta.Extracted.metaSequenceKey ∧
+    tableIDsRangeStart = Regatta.Extracted.tableIDsRangeStart ∧ Regatta.Extracted.maxTableNameLen = 200 :=
+  ⟨rfl, rfl, rfl, rfl⟩
+
 /-! ### table content by shard id: a new table is empty, tables are isolated
 
 Each table's data lives in a Pebble directory and a Raft shard keyed by the table's id
